@@ -226,7 +226,8 @@ func multiNodeWordsOfSource(root *html.Node) map[string]bool {
 
 func outputImageURLs(root *html.Node) []string {
 	var urls []string
-	for _, n := range findAll(root, func(x *html.Node) bool { return isElem(x, "img", "source") }) {
+	// (a <picture> can carry a srcset of its own: lazy-loading attributes are resolved on it too)
+	for _, n := range findAll(root, func(x *html.Node) bool { return isElem(x, "img", "source", "picture") }) {
 		if hasAncestor(n, isPlaceholder) {
 			continue
 		}
